@@ -54,7 +54,7 @@ func vfc08Failures(frame labels.Labels, ext labels.Labels, replica map[string]st
 func TestVF_C08(t *testing.T) {
 	r := vfkit.Start(t, "C08")
 	defer r.Finish()
-	r.Rule("case = one generated fixture (1..3 real blocks whose stored labels collide with external label names cluster/replica/region; a real tsdb.DB over the same block dirs plus head series) served by a TSDBStore with maxBytesPerFrame 1..200 " +
+	r.Rule("case = one generated fixture (1..3 real blocks whose stored labels collide with external label names cluster/replica/region; a real tsdb.DB over the same block dirs plus head series) served by a TSDBStore with maxBytesPerFrame 1..200 whose external labels are replaced twice per fixture with SetExtLset " +
 		"(series split over frames) and a BucketStore (blocks with up to 3 different external label sets; lazy postings on/off) x generated requests (1..3 matchers, 35% on external label names incl. contradicting ones; replica-label lists over external/stored/colliding/absent names in 70%; SkipChunks 1/3). " +
 		"oracle per returned frame: some member label set E of the store that the selectors do not contradict has every label of E not listed as replica label on the frame with E's value, and no label named in the replica list is on the frame; " +
 		"if the selectors contradict every member label set the answer has no series. evaluation = one store answer; distinct/non-trivial = answer with at least one frame, or a contradicting request")
@@ -94,6 +94,13 @@ func vfc08RunFixture(t *testing.T, r *vfkit.Run, c int, rng *rand.Rand, nReq int
 	r.Sample(map[string]any{"case": c, "blocks": vfc07DescribeFixture(fx), "tsdb_ext": tsdbExt.String(), "tsdb_max_bytes_per_frame": ts.maxBytesPerFrame, "stored_names": fx.u.names})
 
 	for q := 0; q < nReq; q++ {
+		if q == nReq/3 || q == 2*nReq/3 {
+			// the store is reconfigured at run time: Series must carry the CURRENT external labels
+			tsdbExt = vfc07NextExtSet(rng, tsdbExt)
+			ts.SetExtLset(tsdbExt)
+			stores[0].exts = []labels.Labels{tsdbExt}
+			r.Count("tsdb_external_label_reconfigurations", 1)
+		}
 		ms := vfc07GenMatchers(rng, fx.u, 0.35)
 		mint, maxt := fx.vfc07Range(rng)
 		var replica []string
